@@ -3,6 +3,14 @@
 // related to character positions through the opaque, strictly increasing `byte_len`.
 pub uninterp spec fn byte_len(s: Seq<char>) -> nat;
 
+/// ASCII strings take one byte per character (trusted; UTF-8)
+pub broadcast axiom fn axiom_byte_len_ascii(s: Seq<char>)
+    requires
+        forall|i: int| 0 <= i < s.len() ==> (#[trigger] s[i] as u32) < 0x80,
+    ensures
+        #[trigger] byte_len(s) == s.len(),
+;
+
 /// Strings are determined by their contents (trusted): equal views are equal Strings
 pub broadcast axiom fn axiom_string_ext(a: String, b: String)
     ensures
